@@ -605,7 +605,9 @@ pub fn case_relay(kind: &str, text: &str) -> Vec<Finding> {
             if text.is_empty() {
                 return out;
             }
-            // bob is away with `text`; ann's PRIVMSG is answered with 301 carrying it
+            // bob is away with `text` (the last text he sent: an earlier one is replaced); ann's
+            // PRIVMSG is answered with 301 carrying it
+            m!(w.send(1, "AWAY :an earlier text"));
             m!(w.send(1, &format!("AWAY :{}", text)));
             w.take_all();
             m!(w.send(0, "PRIVMSG bob :x"));
